@@ -204,7 +204,10 @@ fn extract<'tcx>(tcx: TyCtxt<'tcx>) {
             o.push(("hir", hirtree::dump_body(tcx, ldid)));
         }
         if tcx.is_mir_available(did) {
-            o.push(("mir", mirdump::dump_mir(tcx, ldid, full_mir)));
+            // path rules of C04 (worklist exhaustion) need whole bodies of the lifetime-graph code of diplomat_core
+            let dp = def_path(tcx, did);
+            let full_here = full_mir || FULL_MIR_PATHS.iter().any(|p| dp.contains(p));
+            o.push(("mir", mirdump::dump_mir(tcx, ldid, full_here)));
         }
         fns.push(J::Obj(o));
     }
@@ -232,6 +235,9 @@ fn extract<'tcx>(tcx: TyCtxt<'tcx>) {
     std::fs::write(&tmp, out).expect("dipfacts: cannot write fact file");
     std::fs::rename(&tmp, &fname).expect("dipfacts: cannot rename fact file");
 }
+
+/// Modules outside the full-MIR crates whose functions are dumped with whole MIR bodies.
+const FULL_MIR_PATHS: &[&str] = &["::hir::lifetimes::", "::hir::methods::"];
 
 fn main() {
     let mut args: Vec<String> = std::env::args().collect();
